@@ -609,6 +609,16 @@ def check_c03(prop, tier, seed, devices):
                     else:
                         prog = [line("device", n=devname), label("target")] + gap + [instr("nop") for _ in range(-d)] + [instr(mn, *(ops_pre + [E(sym("target"))])), instr("ret")]
                     cases.append(Case(prog, tag="device"))
+    for kind in (("rjmp", None), ("rcall", None), ("brne", None), ("brbs", 1)):
+        mn, sbit = kind
+        ops_pre = [E(sbit)] if sbit is not None else []
+        pc = sym("pc")
+        for tgt in (binop("-", pc, par(binop("-", lit(4), lit(1)))), binop("-", sym("here"), par(binop("+", lit(2), lit(1)))), binop("+", pc, binop("/", lit(8), par(binop("*", lit(2), lit(2))))),
+                    binop("-", binop("-", pc, lit(2)), lit(1)), binop("+", pc, par(binop("-", lit(70), lit(10)))), binop("-", pc, par(binop("-", lit(80), lit(13)))),
+                    binop("-", pc, par(binop("-", lit(3), lit(2)))), binop("+", binop("-", pc, lit(60)), par(binop("-", lit(3), lit(8))))):
+            body = [instr(mn, *(ops_pre + [ARG(0)]))]
+            prog = [line("macro", n="go")] + body + [line("endm")] + [instr("nop") for _ in range(6)] + [instr("nop", lab="here"), call("go", E(copy.deepcopy(tgt))), instr("ret")]
+            cases.append(Case(prog, tag="macro-target"))
     # out-of-range distances under devices whose flash is as small as the reach of rjmp: never wrapped around
     for devname in ("ATmega8", "ATtiny85", "ATtiny2313", "ATtiny13", "ATmega48"):
         for mn in ("rjmp", "rcall"):
@@ -1119,6 +1129,15 @@ def check_c08(prop, tier, seed, devices):
                                                         data(1, E(0x22)), line("else", pfx=pfx), data(1, E(0x33)), line("endif", pfx=pfx)] + [line("endm")] + \
                            [call("sel", E(1 + (k + ncalls) % 3)) for k in range(ncalls)]
                     cases.append(Case(prog, tag="macro-cond"))
+    for cmt in ("data space: use sts", "':' ends a label", "see note: x", "a:b:c"):
+        for outer in (0, 1):
+            for pfx in (".", "#"):
+                prog = [line("if", e=lit(outer), pfx=pfx), dict(line("if", e=binop(">", arg(0), lit(63)), pfx=pfx), cmt=cmt), instr("ldi", R(16), E(1)), line("else", pfx=pfx),
+                        instr("ldi", R(16), E(2)), dict(line("endif", pfx=pfx), cmt=cmt), instr("ret"), line("else", pfx=pfx), instr("sleep"), line("endif", pfx=pfx), instr("nop")]
+                cases.append(Case(prog, tag="unparsable-conditional"))
+                prog = [line("ifdef", n="NOPE", pfx=pfx), line("macro", n="m"), dict(line("if", e=binop("<", arg(1), lit(2))), cmt=cmt), instr("nop"), dict(line("endif"), cmt=cmt), line("endm"),
+                        line("endif", pfx=pfx), instr("ret")]
+                cases.append(Case(prog, tag="unparsable-conditional"))
     # a macro definition inside a branch that is not assembled: its lines are passed over like any others, the conditional
     # directives among them count, whatever follows the directive word
     for outer in (0, 1):
@@ -1176,6 +1195,8 @@ def fault_lines():
         ("syntax", [line("garbage", text=".org 4 5")]),
         ("syntax", [line("garbage", text="ldi r16 1")]),
         ("unknown-mnemonic", [call("frobnicate", R(1), R(2))]),
+        ("unknown-mnemonic", [call("frobnicate")]),
+        ("unknown-mnemonic", [call("blorp", E(3))]),
         ("wrong-kind", [instr("ldi", R(16), R(2))]),
         ("wrong-kind", [instr("mov", R(1), E(5))]),
         ("out-of-range", [instr("ldi", R(16), E(300))]),
